@@ -53,7 +53,7 @@ class NumberError(object):
             )
         else:
             val = self._value * other
-            err = self._error * other
+            err = self._error * np.abs(other)
         return NumberError(val, err)
 
     def __truediv__(self, other):
@@ -64,11 +64,11 @@ class NumberError(object):
                     (self._error) ** 2
                     + (self._value * other._error / other._value) ** 2
                 )
-                / other._value
+                / np.abs(other._value)
             )
         else:
             val = self._value / other
-            err = self._error / other
+            err = self._error / np.abs(other)
         return NumberError(val, err)
 
     def __pow__(self, other):
@@ -77,7 +77,7 @@ class NumberError(object):
             err1 = (
                 other._value * self._value ** (other._value - 1) * self._error
             )
-            err2 = np.log(other._value) * val * other._error
+            err2 = np.log(self._value) * val * other._error
             err = np.sqrt(err1**2 + err2**2)
         else:
             val = self._value**other
@@ -86,7 +86,7 @@ class NumberError(object):
 
     def __rpow__(self, other):
         val = other**self._value
-        err = np.log(self._value) * val * self._error
+        err = np.abs(np.log(other) * val) * self._error
         return NumberError(val, err)
 
     def log(self):
